@@ -126,7 +126,7 @@ def gen_case(rng, quick):
     if k < 0.35:
         # a constructor program only (the model built through the public constructors)
         return {'base': {'kind': 'gen', 'seed': rng.randrange(1 << 30), 'size': rng.choice([1, 2, 3, 4])}, 'ops': []}
-    return H.gen_case(rng, 10 if quick else 30, files_fraction=0.15)
+    return H.gen_case(rng, 10 if quick else 30, files_fraction=0.2)
 
 
 def run(ctx):
@@ -134,7 +134,7 @@ def run(ctx):
     quick = ctx.quick()
     cases = H.corpus_cases(PID)
     ncorpus = len(cases)
-    for _ in range(450 if quick else 3000):
+    for _ in range(600 if quick else 3000):
         cases.append(gen_case(ctx.rng, quick))
     # the exhaustive single-save slice of C02 (arrangements and pure reorders at every site): direct oracle
     cases.extend(H.exhaustive_cases(1, 4) if quick else H.exhaustive_cases(3, 5))
